@@ -18,7 +18,7 @@ def points(tier):
     i = 0
     for host, cert, insecure, optout, cache in itertools.product(
             ('origin.test', '127.0.0.1', '[::1]'), ('trusted', 'selfsigned', 'wrongname', 'expired'),
-            (False, True), (False, True), ('cold', 'warm')):
+            (False, True), (False, 'only', 'first', 'last', 'bystander_only'), ('cold', 'warm')):
         if tier == 'quick':
             combos = [(PAYLOADS[i % 3], PACKINGS[(i // 3) % 3])]
         else:
@@ -37,6 +37,7 @@ def judge(pt, r):
     if 'exception' in r:
         return [('point_raised', {'exception': r['exception'], 'traceback': r.get('traceback')})]
     bad_cert = pt['cert'] != 'trusted'
+    pt = dict(pt, optout_kind=pt['optout'], optout=pt['optout'] not in (False, 'bystander_only'))
     conns = r['connections']
     origin = r['origin']
     origin_reqs = [q for o in origin for q in o['requests']]
@@ -100,7 +101,7 @@ def run(tier):
             if sym == 'harness_error':
                 herr += 1
             hk = 'name' if pt['host'] == 'origin.test' else ('ipv4' if pt['host'] == '127.0.0.1' else 'ipv6')
-            feats = {'symptom': sym, 'host_kind': hk, 'cert': pt['cert'], 'insecure': pt['insecure'], 'optout': pt['optout']}
+            feats = {'symptom': sym, 'host_kind': hk, 'cert': pt['cert'], 'insecure': pt['insecure'], 'optout': pt['optout'] not in (False, 'bystander_only')}
             k = tuple(sorted(feats.items()))
             if k in seen:
                 continue
@@ -108,13 +109,13 @@ def run(tier):
             rep.violation(feats, {'point': pt, 'detail': detail})
     rep.add(states=n, transitions=n * 2, traces_validated_against_impl=n, live_runs=n, harness_errors=herr,
             rule='CONNECT host {DNS name, IPv4 literal, IPv6 literal} x origin certificate {trusted, self-signed, wrong name, '
-                 'expired} x --insecure-tls-interception x per-request opt-out plugin x certificate cache {cold, warm} = 96 points; '
+                 'expired} x --insecure-tls-interception x plugin list {none, opt-out only, opt-out then bystander, bystander then opt-out, bystander only} x certificate cache {cold, warm} = 240 points; '
                  'thorough additionally x inner payload {GET, chunked POST, two requests} x inner packing {whole, split in header, '
-                 'split in body}; quick rotates payload/packing over the 96 points')
+                 'split in body}; quick rotates payload/packing over the 240 points')
     rep.assumptions.append('handshakes are blocking calls inside the SUT: configurations and inputs are enumerated, '
                            'interleavings inside the handshakes are not')
     if tier == 'quick':
-        rep.coverage['note'] = 'all 96 configuration points; payload x packing rotated rather than multiplied'
+        rep.coverage['note'] = 'all 240 configuration points; payload x packing rotated rather than multiplied'
     return rep.finish()
 
 
